@@ -228,9 +228,10 @@ func generate(seed int64, tier string, search bool) []kase {
 		{proto: "lindell22", variants: []string{"bip340,-", "mina,-", "schnorr-k256,sha512", "schnorr-k256-neg,sha256", "schnorr-p256,sha3-512", "schnorr-k256-le,sha384",
 			"bip340,-", "mina,-", "schnorr-p256,sha256", "schnorr-k256,sha256", "schnorr-k256-neg,sha3-512", "schnorr-k256-le,sha256"},
 			count: 24 * mul, maxQ: 4, emptyOK: true},
-		{proto: "boldyreva", variants: []string{"short,basic", "short,aug", "short,pop", "long,basic", "long,aug", "long,pop"}, count: 18 * mul, maxQ: 5, emptyOK: true},
+		{proto: "boldyreva", variants: []string{"short,basic", "short,aug", "short,pop", "long,basic", "long,aug", "long,pop"}, count: 18 * (mul - 1), maxQ: 5, emptyOK: true}, // quick tier: the cross product of boldyrevaCross only
 	}
 	out := lindell17Cases(seed, lindell17Count(tier)*boolMul(search, 2))
+	out = append(out, boldyrevaCross(seed)...)
 	out = append(out, cggmpCases(seed, cggmpCount(tier))...)
 	for si, sp := range specs {
 		var pols []absPolicy
@@ -276,6 +277,44 @@ func generate(seed int64, tier string, search bool) []kase {
 					k2.Quorum = q2
 					out = append(out, k2)
 				}
+			}
+		}
+	}
+	return out
+}
+
+// boldyrevaCross is the full small cross product run in every tier:
+// {short, long} x {basic, aug, pop} x {ideal threshold, CNF in which every holder owns two rows, gate tree with a
+// repeated leaf (holders 1 and 3 own several rows)} x {minimal, non-minimal quorum}. The two quorums of one
+// combination share key and message, so the (unique) BLS signatures must coincide.
+func boldyrevaCross(seed int64) []kase {
+	structs := []absPolicy{{"T:2:1,2,3", 3}, {"N:1|2|3", 3}, {"G:g2[1,g1[2,3],g2[1,3]]", 3}}
+	var out []kase
+	i := 0
+	for _, ks := range []string{"short", "long"} {
+		for _, md := range []string{"basic", "aug", "pop"} {
+			for _, a := range structs {
+				rng := vh.NewRng(seed, "C01", "gen/blscross", i)
+				p := concretePolicy(a, i%len(assignments))
+				sess := "seeded"
+				switch i % 6 {
+				case 1:
+					sess = "seeded+dkg"
+				case 4:
+					sess = "real+cdkg"
+				}
+				msg := msgSpec(i, rng, false)
+				if i == 3 || i == 13 {
+					msg = "e" // the code's refusal of the empty message (short/aug/ideal and long/aug/CNF; never a POP combination)
+				}
+				for _, minimal := range []bool{true, false} {
+					q := pickQuorum(p, rng, minimal, 0, 0)
+					if q == nil {
+						continue
+					}
+					out = append(out, kase{Proto: "boldyreva", Variant: ks + "," + md, Policy: p.Text(), Quorum: q, Msg: msg, Session: sess, Seed: seed*1000 + 500 + int64(i)})
+				}
+				i++
 			}
 		}
 	}
